@@ -21,7 +21,7 @@ fn main() {
     }
     let args = Args::parse();
     explorer::quiet_panics();
-    let code = match args.property.as_str() {
+    let code = explorer::guard_main(&args.property, || match args.property.as_str() {
         "C01N" => c01n::run(Report::new(&args, "model_checking")),
         "C02" => c02::run(Report::new(&args, "model_checking")),
         "C04" => c04::run(Report::new(&args, "model_checking")),
@@ -35,7 +35,7 @@ fn main() {
             eprintln!("vh-node: unknown property {other}");
             2
         }
-    };
+    });
     let _ = Report::new(&args, "model_checking");
     std::process::exit(code);
 }
